@@ -30,7 +30,7 @@ NAN_MSG = "operation would produce NaN"
 
 def opts(ctx):
     return Opts(abort=False, ret=True, bang=False, closures=True, probes=False, wrap_probes=0.3,
-                var_paths=0.15, const_bias=0.15, ctl_p=0.08, max_stmts=5, closure_fail_p=0.2)
+                var_paths=0.15, const_bias=0.15, ctl_p=0.08, max_stmts=5, closure_fail_p=0.2, unhandled_p=0.12)
 
 
 def gen_case(ctx, rng):
